@@ -1279,6 +1279,9 @@ class ValueGen:
             b2 = self.basis_for_qt(qt_now)
             if b2 is None:
                 return None
+            # objects built against the replaced registration carry its limits; a successor process
+            # would re-create them against the new one: no restart after this point
+            self.restart_at = []
             kw = {"override": True, "default_unit": rng.choice(b2[1])}
             if not getattr(self, "plan", None):
                 # afterwards somebody asks for "the category in its default unit" again
